@@ -17,7 +17,9 @@ CONSTANTS LeafNames,   \* unqualified leaf types, by name (see TypeByName)
           Depth,       \* maximal number of derivations
           P1Names, P2Names,   \* parameter types for one- and two-parameter prototypes
           FnRetNames,  \* return types of depth-1 functions
-          Devs, Emit
+          Devs, Emit,
+          EmitLeafNames   \* VCASE lines are printed for left types of depth <= 2 and for deeper ones whose innermost
+                          \* leaf is one of these (every pair is model-checked regardless)
 
 TypeByName(n) ==
   CASE n \in BasicKinds \cup {"void"} -> B(n)
@@ -157,5 +159,8 @@ Spec == Init /\ [][Next]_vars
 
 Inv_Refines == r.done => r.bad = {}
 Inv_Reflexive == r.done => r.refl
-Inv_Emit == (Emit /\ r.done) => PrintT("VCASE " \o ToJson([form |-> "compat", t1 |-> c.t1, partners |-> r.partners]))
+RECURSIVE LeafOf(_)
+LeafOf(t) == IF t.k = "ptr" THEN LeafOf(t.to) ELSE IF t.k = "arr" THEN LeafOf(t.of) ELSE IF t.k = "fn" THEN LeafOf(t.ret) ELSE Unq(t)
+EmitThis == c.t1 \in DT(IF Depth > 2 THEN 2 ELSE Depth) \/ LeafOf(c.t1) \in {TypeByName(n) : n \in EmitLeafNames}
+Inv_Emit == (Emit /\ r.done /\ EmitThis) => PrintT("VCASE " \o ToJson([form |-> "compat", t1 |-> c.t1, partners |-> r.partners]))
 =============================================================================
